@@ -23,14 +23,26 @@ pub struct Thr {
     pub script: [u8; 2],
     pub len: usize,
     pub next: usize,
+    pub done0: bool,
+    pub done1: bool,
 }
 const fn thr() -> Thr {
-    Thr { h: None, aux: None, m: ModelStr::new(), script: [0; 2], len: 0, next: 0 }
+    Thr { h: None, aux: None, m: ModelStr::new(), script: [0; 2], len: 0, next: 0, done0: false, done1: false }
 }
 pub static mut T2: Thr = thr();
 pub static mut T3: Thr = thr();
 /// thread 1's handle, visible to the other threads only for `&self` operations (Sync)
 pub static mut A_SHARED: *const LeanString = core::ptr::null();
+/// The other threads may be scheduled at yield points number WIN_LO..WIN_HI of thread 1 (the
+/// generator enumerates the windows so that together they cover every yield point; inside a window
+/// the solver decides).  Forking at *every* yield point of an operation in one query does not finish.
+pub static mut WIN_LO: usize = 0;
+pub static mut WIN_HI: usize = usize::MAX;
+pub static mut YIELD_NO: usize = 0;
+/// forced schedule: inside the window the pending operation runs unconditionally (used with a
+/// window of one yield point for other-thread operations that allocate, where a solver-chosen
+/// position makes the allocator bookkeeping symbolic and does not finish)
+pub static mut FORCE: bool = false;
 
 pub const O_NONE: u8 = 0;
 pub const O_DROP: u8 = 1;
@@ -121,7 +133,7 @@ pub fn run_op(op: u8, h: &mut Option<LeanString>, aux: &mut Option<LeanString>, 
             });
             let mut keep = [false; MCAP];
             let mut q = 0;
-            while q < MCAP {
+            while q < m.bound {
                 keep[q] = q % 2 == 0;
                 q += 1;
             }
@@ -141,42 +153,71 @@ pub fn run_op(op: u8, h: &mut Option<LeanString>, aux: &mut Option<LeanString>, 
     }
 }
 
+/// Script positions are addressed by literal index (with a "done" flag each) so that the operation
+/// code stays a literal for the solver even after a symbolic scheduling decision.
 fn run_thread(t: &mut Thr) {
-    let mut k = 0;
-    while k < 2 {
-        if t.next < t.len {
-            let go: bool = kani::any();
-            if go {
-                let op = t.script[t.next];
-                t.next += 1;
-                let Thr { h, aux, m, .. } = t;
-                run_op(op, h, aux, m);
-            }
+    if t.len >= 1 && !t.done0 {
+        let go: bool = if unsafe { FORCE } { true } else { kani::any() };
+        if go {
+            t.done0 = true;
+            t.next = 1;
+            let op = t.script[0];
+            let Thr { h, aux, m, .. } = t;
+            run_op(op, h, aux, m);
         }
-        k += 1;
+    }
+    if t.len >= 2 && t.done0 && !t.done1 {
+        let go: bool = if unsafe { FORCE } { true } else { kani::any() };
+        if go {
+            t.done1 = true;
+            t.next = 2;
+            let op = t.script[1];
+            let Thr { h, aux, m, .. } = t;
+            run_op(op, h, aux, m);
+        }
     }
 }
 
 /// The scheduler hook: at this yield point the solver may run pending operations of the other threads.
-pub fn hook() {
+pub fn ls_seam_hook() {
     unsafe {
+        let k = YIELD_NO;
+        YIELD_NO += 1;
+        if k < WIN_LO || k >= WIN_HI {
+            return;
+        }
         run_thread(&mut T2);
-        run_thread(&mut T3);
+        if T3.len > 0 {
+            run_thread(&mut T3);
+        }
     }
 }
 
 fn finish_thread(t: &mut Thr) {
-    while t.next < t.len {
-        let op = t.script[t.next];
-        t.next += 1;
+    if t.len >= 1 && !t.done0 {
+        t.done0 = true;
+        let op = t.script[0];
         let Thr { h, aux, m, .. } = t;
         run_op(op, h, aux, m);
     }
+    if t.len >= 2 && !t.done1 {
+        t.done1 = true;
+        let op = t.script[1];
+        let Thr { h, aux, m, .. } = t;
+        run_op(op, h, aux, m);
+    }
+    t.next = t.len;
 }
 
 /// 2 (or 3) threads on one shared 20-byte heap buffer.  `shared_ref`: thread 1's operations are
 /// `&self` operations and its handle is also visible to thread 2 by reference.
-pub fn seam(op1: u8, op1b: u8, s0: u8, s1: u8, u0: u8, u1: u8, three: bool, shared_ref: bool, len1: usize) {
+pub fn seam(op1: u8, op1b: u8, s0: u8, s1: u8, u0: u8, u1: u8, three: bool, shared_ref: bool, len1: usize, win_lo: usize, win_hi: usize, force: bool) {
+    unsafe {
+        FORCE = force;
+        WIN_LO = win_lo;
+        WIN_HI = win_hi;
+        YIELD_NO = 0;
+    }
     let s: &str = unsafe { core::str::from_utf8_unchecked(&TEXT[..]) };
     let m0 = ModelStr::from_bytes_bounded(&TEXT[..], 28);
     let mut a = Some(LeanString::from(s));
@@ -188,12 +229,16 @@ pub fn seam(op1: u8, op1b: u8, s0: u8, s1: u8, u0: u8, u1: u8, three: bool, shar
         T2.script = [s0, s1];
         T2.len = if s1 != O_NONE { 2 } else if s0 != O_NONE { 1 } else { 0 };
         T2.next = 0;
+        T2.done0 = false;
+        T2.done1 = false;
         if three {
             T3.h = Some(a.as_ref().unwrap().clone());
             T3.m = m0;
             T3.script = [u0, u1];
             T3.len = if u1 != O_NONE { 2 } else if u0 != O_NONE { 1 } else { 0 };
             T3.next = 0;
+            T3.done0 = false;
+            T3.done1 = false;
         }
         if len1 < 20 {
             // thread 1's handle carries a shorter handle-local length
@@ -204,7 +249,7 @@ pub fn seam(op1: u8, op1b: u8, s0: u8, s1: u8, u0: u8, u1: u8, three: bool, shar
             A_SHARED = a.as_ref().unwrap() as *const LeanString;
         }
         // from here on every atomic operation of thread 1 is a scheduling point
-        sched::HOOK = Some(hook);
+        sched::ENABLED = true;
     }
     run_op(op1, &mut a, &mut aux1, &mut m1);
     sched::yield_point();
@@ -212,12 +257,13 @@ pub fn seam(op1: u8, op1b: u8, s0: u8, s1: u8, u0: u8, u1: u8, three: bool, shar
         run_op(op1b, &mut a, &mut aux1, &mut m1);
     }
     unsafe {
-        sched::HOOK = None;
+        sched::ENABLED = false;
         A_SHARED = core::ptr::null();
         // the other threads run to the end of their scripts
         finish_thread(&mut T2);
         finish_thread(&mut T3);
         kani::cover!(T2.next == T2.len, "thread 2 finished its script");
+        kani::cover!(YIELD_NO > WIN_LO, "thread 1 reached the scheduling window");
         // every thread reads back what its own operations produce sequentially
         if let Some(h) = &a {
             check_handle(h, &m1);
